@@ -76,6 +76,11 @@ func (m *model) apply(o Op, st *stats) {
 			f(st)
 		}
 	}
+	if o.Kind == "await" {
+		note(func(s *stats) { s.lastAwait = o.Event })
+		return
+	}
+	defer note(func(s *stats) { s.lastAwait = "" })
 	noteVal := func(u Op) {
 		note(func(s *stats) {
 			s.kinds[u.Val.Kind] = true
@@ -153,6 +158,12 @@ func (m *model) apply(o Op, st *stats) {
 		note(func(s *stats) {
 			s.breaks++
 			s.breakVia[o.Via] = true
+			if s.lastAwait != "" {
+				s.aimed[s.lastAwait] = true
+				if s.lastAwait == "first" && len(m.units) >= 1000 {
+					s.aimedBig = true
+				}
+			}
 		})
 		if o.LoseMod > 0 && o.Via != "rpc" {
 			// the device comes back without some of its leaves: whole units, by rank in key order
